@@ -49,6 +49,16 @@ def search(run):
     from props import sklib
     # the registers of a set must not depend on the order / history of the stream (else common items of two sets land on different registers)
     sklib.direct_props(run, ["ss-order", "reinit-ss"], n=600)
+    # the fraction of equal registers against the exact collision probability of the model, small and large sets, four bases
+    import vlib
+    rc, js, out, err = vlib.harness(["coll-mc", "--seed", run.seed, "--trials", 400], timeout=3000)
+    if rc == 0 and js is not None:
+        worst = sorted([r for r in js["rows"] if abs(r["z"]) > 6], key=lambda r: -abs(r["z"]))
+        for f in worst[:1]:
+            run.violation("collision-bias", "SetSketch b=%s m=%d |A\\B|=%d |B\\A|=%d |AnB|=%d: mean fraction of equal registers %.5f, collision "
+                          "probability of the model %.5f (z = %.1f over %d pairs of sets)" % (
+                              f["b"], f["m"], f["a_only"], f["b_only"], f["both"], f["mean"], f["p"], f["z"], f["trials"]),
+                          {"kind": "impl-input", "input": f, "observed": f["mean"], "expected": f["p"]})
 
 
 def replay(path):
